@@ -68,7 +68,7 @@ func (f *File) Write(b []byte) (int, error)       { return f.h.Write(b) }
 func (f *File) WriteString(s string) (int, error) { return f.h.Write([]byte(s)) }
 func (f *File) Close() error                      { return f.h.Close() }
 func (f *File) Name() string                      { return f.h.Name }
-func (f *File) Sync() error                       { return nil }
+func (f *File) Sync() error                       { return f.h.Sync() }
 func (f *File) Truncate(size int64) error         { return f.h.Truncate(size) }
 func (f *File) Fd() uintptr                       { return ^uintptr(0) }
 func (f *File) Chmod(mode FileMode) error         { return nil }
@@ -157,6 +157,25 @@ func Chmod(name string, mode FileMode) error    { return nil }
 func TempDir() string                           { return "." }
 func Chown(name string, uid, gid int) error     { return nil }
 func Getpid() int                               { return 4242 }
+
+// Process: the only process a jd program can name is itself; a signal sent to
+// it is recorded and otherwise inert (nothing in the simulation delivers
+// signals).
+type Process struct{ Pid int }
+
+func FindProcess(pid int) (*Process, error) { return &Process{Pid: pid}, nil }
+func (p *Process) Signal(sig Signal) error {
+	simos.Note("signal", sig.String())
+	return nil
+}
+func (p *Process) Kill() error    { return p.Signal(Kill) }
+func (p *Process) Release() error { return nil }
+
+var (
+	Interrupt = realos.Interrupt
+	Kill      = realos.Kill
+)
+
 func Getppid() int                              { return 4241 }
 func Getuid() int                               { return 1000 }
 func Geteuid() int                              { return 1000 }
